@@ -155,6 +155,7 @@ fn main() {
         "text" => text_cmd(&args),
         "files" => files::run(&args),
         "sema" => sema::run(&args),
+        "verdicts" => sema::verdicts(&args),
         "names" => names::run(&args),
         "semadump" => {
             let t = std::fs::read_to_string(args.get("file", "/dev/stdin")).unwrap();
